@@ -141,6 +141,80 @@ theorem addBuffered_eq_addAt_of_nodup (d : Nat → K) (idx : List Nat) (vals : L
   rw [contrib_of_nodup idx h vals j]
   cases lastWrite idx vals j <;> simp
 
+/-! ### with a repeated slot some values make buffered `+=` lose a contribution -/
+
+theorem contrib_zeros (idx : List Nat) (n : Nat) (j : Nat) :
+    contrib idx (List.replicate n (0 : K)) j = 0 := by
+  induction idx generalizing n with
+  | nil => exact contrib_nil _ j
+  | cons i is ih =>
+    cases n with
+    | zero => exact contrib_nil_right _ j
+    | succ n => rw [List.replicate_succ, contrib_cons, ih]; simp
+
+theorem lastWrite_zeros_of_mem (idx : List Nat) (j : Nat) (h : j ∈ idx) :
+    lastWrite idx (List.replicate idx.length (0 : K)) j = some 0 := by
+  induction idx with
+  | nil => simp at h
+  | cons i is ih =>
+    simp only [List.length_cons, List.replicate_succ, lastWrite]
+    by_cases hj : j ∈ is
+    · rw [ih hj]
+    · have hij : i = j := by
+        rcases List.mem_cons.mp h with e | e
+        · exact e.symm
+        · exact absurd e hj
+      rw [lastWrite_none_of_not_mem is _ j hj]
+      simp [hij]
+
+/-- the value a buffered `+=` on a zero array leaves in cell `j` -/
+def bufVal (idx : List Nat) (vals : List K) (j : Nat) : K :=
+  match lastWrite idx vals j with
+  | none => 0
+  | some v => v
+
+theorem dup_witness (h01 : (0 : K) ≠ 1) (idx : List Nat) (h : ¬ idx.Nodup) :
+    ∃ (vals : List K) (j : Nat), bufVal idx vals j ≠ contrib idx vals j := by
+  induction idx with
+  | nil => simp at h
+  | cons i is ih =>
+    by_cases hi : i ∈ is
+    · refine ⟨1 :: List.replicate is.length 0, i, ?_⟩
+      unfold bufVal
+      simp only [lastWrite]
+      rw [lastWrite_zeros_of_mem is i hi, contrib_cons, contrib_zeros]
+      simpa using h01
+    · have hnd : ¬ is.Nodup := fun hn => h (List.nodup_cons.mpr ⟨hi, hn⟩)
+      obtain ⟨vals, j, hv⟩ := ih hnd
+      refine ⟨0 :: vals, j, ?_⟩
+      unfold bufVal at hv ⊢
+      simp only [lastWrite]
+      rw [contrib_cons]
+      cases hl : lastWrite is vals j with
+      | some w => rw [hl] at hv; simpa using hv
+      | none =>
+        rw [hl] at hv
+        by_cases hij : i = j <;> simpa [hij] using hv
+
+theorem buffered_iff (h01 : (0 : K) ≠ 1) (idx : List Nat) :
+    (∀ (d : Nat → K) (vals : List K), addBufferedSeq d idx vals = addAtSeq d idx vals) ↔
+      idx.Nodup := by
+  constructor
+  · intro h
+    apply Classical.byContradiction
+    intro hnd
+    obtain ⟨vals, j, hv⟩ := dup_witness h01 idx hnd
+    have := congrFun (h (fun _ => 0) vals) j
+    rw [addBufferedSeq_eq, addAtSeq_eq] at this
+    apply hv
+    unfold bufVal
+    unfold addBuffered addAt at this
+    cases hl : lastWrite idx vals j with
+    | none => rw [hl] at this; simpa using this
+    | some v => rw [hl] at this; simpa using this
+  · intro h d vals
+    rw [addBufferedSeq_eq, addAtSeq_eq, addBuffered_eq_addAt_of_nodup d idx vals h]
+
 /-! ### the duplicate flag -/
 
 theorem distinct_length_le (l : List Nat) : (distinct l).length ≤ l.length := by
